@@ -34,8 +34,9 @@ class World:
             s = g.Section(name="s%d" % i, module=self.mods[i % 2])
             self.secs.append(s)
             self.emit("sec %d" % i)
+        self.addressless = rng.random() < 0.3
         for i in range(N_BI):
-            a = rng.choice(ADDRS)
+            a = None if self.addressless else rng.choice(ADDRS)
             z = rng.randrange(0, 7)
             bi = g.ByteInterval(address=a, size=z)
             self.bis.append(bi)
@@ -51,12 +52,17 @@ class World:
             # incremental branch of the lazy index (fewer pending events than
             # members) is the common one
             self.apply(("bi-parent", 0, 0))
-            if self.bis[0].address is None:
+            if self.bis[0].address is None and not self.addressless:
                 self.apply(("biaddr", 0, rng.choice([0, 2, 4])))
             for i in range(N_BLK - 2):
                 self.apply(("blk-add", i, 0))
             for i in (1, 2):
                 self.apply(("bi-add", i, 0))
+        elif self.addressless:
+            # several address-less intervals in one section: its index is
+            # first built while it holds nothing
+            for i in range(4):
+                self.apply(("bi-add", i, 1))
 
     # ---- abstract edits; each returns the driver line(s) it corresponds to
     def apply(self, op):
@@ -397,6 +403,7 @@ def run_history(ctx, hno, steps, tie, lookup_every):
     w.setup()
     script = []
     state = {"ok": True}
+    first_lookup = w.addressless
 
     def report(prop, what):
         if ctx.prop in (prop, "C12"):
@@ -405,6 +412,10 @@ def run_history(ctx, hno, steps, tie, lookup_every):
         state["ok"] = False
         return False
     for s in range(steps):
+        if first_lookup:
+            first_lookup = False
+            if not w.lookups(ctx, ctx.prop, report):
+                return None
         op = w.gen_edit()
         script.append(op)
         try:
